@@ -321,11 +321,18 @@ def r_keys(model, rep):
     if ok:
         st = stores[0]
         tgt = nk(st.target)
+        HOLE_ = ("const", "<source key>")
         want_path = ("sub", ("call", ("attr", ("call", ("attr", ("call", ("attr", ("attr", S, "rpms"), "setdefault"), (P("variant"), ("dict", ())), ()),
                                                         "setdefault"), (P("arch"), ("dict", ())), ()), "setdefault"),
-                             (("phi", (scanon, canon)), ("dict", ())), ()), canon)
-        alt_path = ("sub", want_path[1][:2] + ((("phi", (canon, scanon)), ("dict", ())), ()), canon)
-        ok = tgt in (want_path, alt_path)
+                             (HOLE_, ("dict", ())), ()), canon)
+        # the third level key: the canonical srpm nevra, or the package's own canonical nevra (chosen by whatever spelling of
+        # "srpm_nevra given?": two assignments, a conditional expression, a helper's early return)
+        skey = None
+        if tgt[0] == "sub" and tgt[1][0] == "call" and len(tgt[1][2]) == 2:
+            skey = tgt[1][2][0]
+            tgt = ("sub", tgt[1][:2] + ((HOLE_, tgt[1][2][1]), tgt[1][3]), tgt[2])
+        ok = tgt == want_path and skey is not None and sorted(T.alts(skey)) == sorted([canon, scanon])
+        tgt = nk(st.target)
         msg = "" if ok else ("entry is not filed under self.rpms[variant][arch][canonical srpm nevra (own nevra for a source "
                              "rpm)][canonical nevra]: " + T.show(tgt))
     rep.ob("R-KEYS", "Rpms.add:filing-path", ok, site=cx.site(f.node), msg="" if ok else msg)
